@@ -203,13 +203,15 @@ Definition exec (cf : config) (s : shared) (l : tlocal) (p : pc) (x : N)
       (s', l, [e], NGoto (GClaim w))
   | GClaim w =>
       let '(s', _, ok, e) := a_cas s (LInUse w) NODE_UNUSED NODE_USED o_get_claim false false in
-      (s', l, [e], if ok then NRet (RNode w) else if w =? 0 then NGoto GPush0 else NGoto (GCool1 (w - 1)))
+      (* on success the node is ours: LocalNode::node is set right when Node::get returns *)
+      if ok then (s', tl_set_node l (Some w), [e], NRet (RNode w))
+      else (s', l, [e], if w =? 0 then NGoto GPush0 else NGoto (GCool1 (w - 1)))
   | GPush0 =>
       let '(h, e) := a_load s LHead o_get_head_relaxed in
       (s, l, [e], NGoto (GPush h))
   | GPush h =>
       let '(s', old, ok, e) := a_cas s LHead h (node_val h) o_get_push true (x =? 1) in
-      if ok then (node_init s' h, l, [e], NRet (RNode h))
+      if ok then (node_init s' h, tl_set_node l (Some h), [e], NRet (RNode h))
       else (s', l, [e], NGoto (GPush old))
   (* ---- start_cooldown ---- *)
   | C1 w =>
@@ -475,14 +477,13 @@ Definition exec (cf : config) (s : shared) (l : tlocal) (p : pc) (x : N)
 Definition resume (cf : config) (l : tlocal) (w : pc) (v : retval) : tlocal * next :=
   match w, v with
   | WGetLoad c, RNode n =>
-      let l := tl_set_depth (tl_set_node l (Some n)) (tl_depth l + 1) in
+      let l := tl_set_depth l (tl_depth l + 1) in
       load_body cf l c
   | WGetPay c old, RNode n =>
-      (tl_set_depth (tl_set_node l (Some n)) (tl_depth l + 1), NGoto (pay_body old c))
+      (tl_set_depth l (tl_depth l + 1), NGoto (pay_body old c))
   | WGetSetGen g, RNode n =>
       (* with(|l| set generation): enter, set, leave *)
-      let l := tl_set_gen (tl_set_node l (Some n)) g in
-      (l, NRet RUnit)
+      (tl_set_gen l g, NRet RUnit)
   | WExit r, _ => (l, NRet r)
   | WLoadFull, RGuard p d =>
       match guard_into_frames p d with
